@@ -347,13 +347,18 @@ func c13LadnIndExec(c *core.Ctx, in c13LadnInd) {
 	}
 	contents := refconv.LadnIndicationEncode(dnns)
 	var got []string
-	pi := core.Try(func() { got = nasConvert.LadnToModels(contents) })
+	guardReset()
+	pi := core.Try(func() { got = nasConvert.LadnToModels(guardIn(contents)) })
 	if pi != nil {
 		c.FailCase("ladn-indication|"+pi.Key(), fmt.Sprintf("LadnToModels(%x) panics: %s", contents, pi.Msg), "ladn-ind", in)
 		return
 	}
 	if len(got) != len(want) || (len(want) > 0 && !reflect.DeepEqual(got, want)) {
 		c.FailCase("ladn-indication|values", fmt.Sprintf("LadnToModels(%x) = %q, want %q", contents, got, want), "ladn-ind", in)
+		return
+	}
+	if w := guardCheck(); w != "" {
+		c.FailCase("ladn-indication|writes-to-callers-buffer", fmt.Sprintf("LadnToModels(%x): %s", contents, w), "ladn-ind", in)
 	}
 }
 
